@@ -110,6 +110,7 @@ type c09Step struct {
 	Ev       string                   `json:"ev"`
 	Variant  string                   `json:"variant"`
 	Family   string                   `json:"family"`
+	Cfgv     int                      `json:"cfgv"` // wired family: version of the execution configuration document (1 | 2)
 	Mode     string                   `json:"mode"`
 	Sp       string                   `json:"sp"`
 	Via      string                   `json:"via"`
@@ -556,6 +557,7 @@ type c09Instance struct {
 	cancel     context.CancelFunc
 	variant    string
 	wired      bool
+	cfgv       int // wired family: version of the execution configuration documents of the history
 	chainTime  *c09ChainTime
 	execConfig *c09ExecConfig // fake family
 	svc        *Service
@@ -961,8 +963,10 @@ func (in *c09Instance) start(au *c09Auction) {
 		au.mu.Lock()
 		au.retAt = time.Now()
 		au.ret = au.retAt.Sub(au.origin)
-		au.closed = true
-		close(au.stop)
+		if !au.closed { // (a call recorded as Hung has been closed by the history loop)
+			au.closed = true
+			close(au.stop)
+		}
 		au.mu.Unlock()
 		res := &c09Results{err: err}
 		if r != nil {
@@ -995,6 +999,7 @@ func (e *c09Env) runHistory(sc c09Scenario, w *c09Watch, attempt int) (events []
 		}
 	}
 	in := e.newInstance(variant, reset.Family, nrel, c09BuilderConfigs(table), uniq)
+	in.cfgv = reset.Cfgv
 	defer in.close()
 	version := []consensusspec.DataVersion{consensusspec.DataVersionBellatrix, consensusspec.DataVersionCapella, consensusspec.DataVersionDeneb}[rng.Intn(3)]
 
@@ -1072,12 +1077,15 @@ func (e *c09Env) runHistory(sc c09Scenario, w *c09Watch, attempt int) (events []
 			}
 		}
 	}
-	note(time.Time{}, verifsupport.Ev{"ev": "Reset", "variant": variant, "family": reset.Family, "mode": reset.Mode, "version": version.String(), "attempt": attempt})
+	note(time.Time{}, verifsupport.Ev{"ev": "Reset", "variant": variant, "family": reset.Family, "cfgv": reset.Cfgv, "mode": reset.Mode, "version": version.String(), "attempt": attempt})
 
 	window := int64(c09Window / time.Millisecond)
+	hangAfter := c09HangAfter
 	if widen {
 		window = 1000000
+		hangAfter = 4 * c09HangAfter
 	}
+	hung := false // a call did not return in time: under load the history is run again like a stalled one
 	open := map[int]*c09Auction{}
 	failed := false
 	late := false // an AuctionBlock call returned later than time-out + eps
@@ -1097,7 +1105,8 @@ func (e *c09Env) runHistory(sc c09Scenario, w *c09Watch, attempt int) (events []
 		note(au.called, au.line)
 		select {
 		case <-au.done:
-		case <-time.After(c09HangAfter):
+		case <-time.After(hangAfter):
+			hung = true
 			// an event no action of the specification allows; the call is abandoned
 			au.mu.Lock()
 			dels := len(au.deliveries)
@@ -1222,7 +1231,8 @@ func (e *c09Env) runHistory(sc c09Scenario, w *c09Watch, attempt int) (events []
 			var sv served
 			select {
 			case sv = <-ch:
-			case <-time.After(c09HangAfter):
+			case <-time.After(hangAfter):
+				hung = true
 				note(time.Now(), verifsupport.Ev{"ev": "Hung", "what": "BuilderBid has not returned"})
 				failed = true
 			}
@@ -1282,7 +1292,9 @@ func (e *c09Env) runHistory(sc c09Scenario, w *c09Watch, attempt int) (events []
 	// A return later than time-out + eps has no admissible phase.  Under load the goroutines of an auction can be
 	// starved for longer than the watchdog notices: the first two times the history is run again (on a new
 	// instance) like a stalled one; a strategy that really returns late does so every time and is judged then.
-	return events, w.stalledSince(began) || (late && attempt < 2)
+	// The same holds for a call that has not returned after 5 s on a machine whose scheduler is starved: the history is
+	// run again; on the last attempt (widened, 20 s) a call that still has not returned is recorded as Hung.
+	return events, w.stalledSince(began) || (late && attempt < 2) || (hung && attempt < 3)
 }
 
 // c09Results is the projection of blockauctioneer.Results that the trace carries.
